@@ -850,18 +850,21 @@ def install(eng):
 
     @model("ndarray.clip", "numpy.clip")
     def _clip(eng, a, min=None, max=None, a_min=None, a_max=None):
-        min = a_min if min is None else min
-        max = a_max if max is None else max
+        lo = a_min if min is None else min
+        hi = a_max if max is None else max
+        if lo is None and hi is None:
+            raise I.PyRaise("ValueError", ("One of max or min must be given",))
 
-        def c(v):
-            if min is not None:
-                cm = T.compare("lt", v, min)
-                v = T.ite(cm, min, v)
-            if max is not None:
-                cm = T.compare("gt", v, max)
-                v = T.ite(cm, max, v)
+        def c(v, *b):
+            b = list(b)
+            if lo is not None:
+                l_ = b.pop(0)
+                v = T.ite(T.compare("lt", v, l_), l_, v)
+            if hi is not None:
+                h_ = b.pop(0)
+                v = T.ite(T.compare("gt", v, h_), h_, v)
             return v
-        return M.elementwise(eng, c, a)
+        return M.elementwise(eng, c, a, *[x for x in (lo, hi) if x is not None])
 
     @model("ndarray.dot", "numpy.dot")
     def _dot(eng, a, b):
